@@ -923,6 +923,8 @@ class Engine:
 
     def concrete_items(self, it):
         """list of values if the iterable has a concrete length, else None"""
+        if isinstance(it, SPy):
+            it = self.refine(it)
         if isinstance(it, (tuple, list)):
             return list(it)
         if isinstance(it, bytes):
@@ -1080,6 +1082,8 @@ class Engine:
             d.val = z3.Const(self.fresh_name(d.name + ".init"), z3.ArraySort(self.sort_of_kind(kk), self.sort_of_kind(vk)))
 
     def dict_key(self, d, key):
+        if isinstance(key, SPy) and d.kkind in ("bytes", "tuple", "int"):
+            key = self.refine(key)
         self.dict_type(d, key)
         if d.kkind in ("bytes", "tuple"):
             if isinstance(key, SPy):
@@ -1094,6 +1098,8 @@ class Engine:
         raise Unsupported("dict key kind %s" % d.kkind)
 
     def dict_enc(self, d, val):
+        if isinstance(val, SPy) and d.vkind != "py":
+            val = self.refine(val)
         if d.vkind == "bytes":
             if ops.seq_kind(val) != "bytes":
                 raise Unsupported("dictionary value %r is not bytes" % (val,))
@@ -1260,10 +1266,17 @@ class Engine:
     _BIN = {ast.Add: "+", ast.Sub: "-", ast.Mult: "*", ast.FloorDiv: "//", ast.Mod: "%", ast.Pow: "**",
             ast.LShift: "<<", ast.RShift: ">>", ast.BitAnd: "&", ast.BitOr: "|", ast.BitXor: "^"}
 
+    def refine(self, v):
+        if isinstance(v, SPy):
+            from pyvc import lib
+            return lib.refine(self, v)
+        return v
+
     def binop(self, opcls, a, b):
         op = self._BIN.get(opcls)
         if op is None:
             raise Unsupported("operator %s" % opcls.__name__)
+        a, b = self.refine(a), self.refine(b)
         if op == "%" and isinstance(a, str):
             return "<formatted>"
         if op == "+" and (isinstance(a, ListObj) or isinstance(b, ListObj)):
@@ -1317,6 +1330,7 @@ class Engine:
         if isinstance(op, ast.NotIn):
             return ops.s_not(self.contains(b, a))
         sym = {ast.Lt: "<", ast.LtE: "<=", ast.Gt: ">", ast.GtE: ">="}[type(op)]
+        a, b = self.refine(a), self.refine(b)
         if isinstance(a, Obj) or isinstance(b, Obj):
             raise Unsupported("ordering of objects")
         return ops.compare(sym, a, b)
@@ -1451,6 +1465,7 @@ class Engine:
         return self.get_item(base, key)
 
     def get_slice(self, base, lo, hi):
+        base, lo, hi = self.refine(base), self.refine(lo), self.refine(hi)
         if isinstance(base, ListObj):
             if base.items is not None and (lo is None or isinstance(lo, int)) and (hi is None or isinstance(hi, int)):
                 return ListObj(items=base.items[lo:hi])
@@ -1467,6 +1482,9 @@ class Engine:
 
     def get_item(self, base, key):
         from pyvc import lib
+        base = self.refine(base)
+        if not isinstance(base, (DictObj, dict)):
+            key = self.refine(key)
         if isinstance(base, DictObj):
             return self.dict_get(base, key)
         if isinstance(base, dict):
